@@ -299,6 +299,8 @@ func run(c *hc.Ctx) error {
 
 	var lines, inputs []string
 	var wants [][]string
+	var byteLines, byteImpl, byteIn []string
+	var bytePre []bool
 	for i, x := range cases {
 		o := outs[i]
 		in := x.String()
@@ -378,6 +380,15 @@ func run(c *hc.Ctx) error {
 		lines = append(lines, line)
 		inputs = append(inputs, in)
 		wants = append(wants, append(append([]string{}, obs[:]...), c09x.ClientResult(o.cres, o.cerr), c09x.ServerResult(o.sres, o.serr)))
+		// ---- byte level: envelopes, TL bytes of every message and of the three inner-data objects
+		last := func(m string) string { f := strings.Fields(m); return f[len(f)-1] }
+		bl, bi, bn, bp := c09x.ByteLines(o.sent, o.recv, []string{last(obs[2]), last(obs[3]), last(obs[4])}, dec, true, true)
+		for k := range bl {
+			byteLines = append(byteLines, bl[k])
+			byteImpl = append(byteImpl, bi[k])
+			byteIn = append(byteIn, in+" :: "+bn[k])
+			bytePre = append(bytePre, bp[k])
+		}
 	}
 	t1 := time.Now()
 	res, err := c.Drv.Batch(lines)
@@ -406,8 +417,18 @@ func run(c *hc.Ctx) error {
 			c.Res.TracesValidated++
 		}
 	}
+	bres, err := c.Drv.Batch(byteLines)
+	if err != nil {
+		return err
+	}
+	for k, ans := range bres {
+		if c.Compare(byteIn[k]+" :: "+byteLines[k], c09x.ByteAgree(byteImpl[k], ans, bytePre[k]), ans) {
+			c.Res.TracesValidated++
+		}
+	}
+	c.Count(fmt.Sprintf("byte-level comparisons: %d", len(bres)))
 	c.Res.Rule = "each case = one complete exchange, client and server both the real implementation; datacenter ids cycle through −3…5 and 10002, both modes alternate, server RNG = in-tree TestServerRNG (25%), harness RNG with the Telegram prime (25%) or one of 9 other 2048-bit safe primes with a random semiprime pq (50%), 0–3 foreign trusted keys before the server's; all random streams derive from the seed; every case is non-trivial; distinct = distinct case line"
 	c.PartialNote("read/write interleavings: the protocol is strict request/response over a synchronous pipe (net.Pipe), so the only schedule freedom is goroutine start order; it is not controlled by the harness")
-	c.PartialNote("ciphertext bytes are not compared with the model: the harness decrypts them with the real keys and the model uses tagged plaintexts (RSA_PAD and the IGE answer encryption are C14/C11/C04 territory)")
+	c.PartialNote("ciphertext bytes are opaque to the model: the harness decrypts them with the real keys; the TL bytes of every message, of the envelopes and of the three inner-data plaintexts are compared byte for byte with the model's codec (RSA_PAD and the IGE answer encryption are C14/C11/C04 territory)")
 	return nil
 }
